@@ -40,9 +40,20 @@ func RenameBlankIdentifierWith(sig *types.Signature, prefix string) *types.Signa
 
 func hasBlankIdentifier(tup *types.Tuple) bool {
 	for i := 0; i < tup.Len(); i++ {
-		if tup.At(i).Name() == blackIdentifier {
+		if unusableName(tup.At(i).Name()) {
 			return true
 		}
+	}
+	return false
+}
+
+// unusableName reports whether a parameter with this name cannot be forwarded by the generated
+// wrapper as it is: it is blank, it has no name at all (parameters of a function type need none),
+// or it would shadow an identifier the generated wrappers declare themselves.
+func unusableName(name string) bool {
+	switch name {
+	case blackIdentifier, "", "f", "err", "success":
+		return true
 	}
 	return false
 }
@@ -51,7 +62,7 @@ func rename(tup *types.Tuple, prefix string) *types.Tuple {
 	vars := make([]*types.Var, tup.Len())
 	for i := range vars {
 		varValue := tup.At(i)
-		if varValue.Name() == blackIdentifier || strings.HasPrefix(varValue.Name(), prefix) {
+		if unusableName(varValue.Name()) || strings.HasPrefix(varValue.Name(), prefix) {
 			varValue = types.NewVar(varValue.Pos(), varValue.Pkg(), prefix+strconv.Itoa(i), varValue.Type())
 		}
 		vars[i] = varValue
